@@ -405,7 +405,7 @@ Qed.
 Lemma exec_action_effect cfg s a : forall c ss c' ss' o,
   exec_action cfg s c ss a = (c', ss', o) -> exists l, line_effect ss ss' l.
 Proof.
-  induction a as [p d|p ro|p|p|k v|sub keep|id bad|h neg| | | | | |neg prog a IH]; intros c ss c' ss' o H;
+  induction a as [p d|p ro|p|p|k v|sub keep|id bad|h neg| | | | | | | |neg prog a IH]; intros c ss c' ss' o H;
     cbn [exec_action] in H.
   - destruct (write_file _ _ _ _); injection H as <- <- <-; exists []; [now apply line_effect_same | apply line_effect_refl].
   - destruct (mkdir_all _ _ _); injection H as <- <- <-; exists []; [now apply line_effect_same | apply line_effect_refl].
@@ -443,6 +443,28 @@ Proof.
     + intros h Hh. now left.
   - injection H as <- <- <-. exists []. apply line_effect_refl.
   - injection H as <- <- <-. exists []. apply line_effect_refl.
+  - (* kill *)
+    injection H as <- <- <-. destruct (ev_int_all_proj (bgl ss)) as (I1 & I2 & I3 & I4 & I5 & I6 & I7).
+    exists (ev_int_all (bgl ss)).
+    constructor; cbn [add_obs obs ph wpresent dstack bgl]; try reflexivity; try assumption.
+    + now rewrite I4.
+    + rewrite I3. intros h [].
+    + intros h Hh. now left.
+  - (* kill; wait *)
+    destruct (skip_wait (bgl ss)) as [waited ok] eqn:E.
+    destruct (skip_wait_proj _ _ _ E) as (W1 & W2 & W3 & W4 & W5 & W6 & W7).
+    destruct (ev_int_all_proj (bgl ss)) as (I1 & I2 & I3 & I4 & I5 & I6 & I7).
+    exists (ev_int_all (bgl ss) ++ waited).
+    destruct ok; injection H as <- <- <-;
+      (constructor; cbn [add_obs set_bgl obs ph wpresent dstack bgl]; try reflexivity;
+       [ now rewrite defer_runs_app, I5, W4
+       | now rewrite setup_events_app, I6, W5
+       | now rewrite work_removed_app, I7, W6
+       | now rewrite defer_regs_app, I4, W3
+       | rewrite bg_started_app, I3, W2; intros h []
+       | ]).
+    + intros h Hh. right. rewrite bg_interrupted_app, bg_waited_app, I1, I2, W1, (W7 eq_refl), app_nil_r. cbn. tauto.
+    + intros h Hh. now left.
   - destruct (cached_look cfg s c ss prog) as [ans c1] eqn:E.
     destruct (Bool.eqb ans (negb neg)).
     + destruct (IH _ _ _ _ _ H) as [l Hl]. exists (EvCond prog ans :: l). now apply line_effect_cond.
@@ -528,7 +550,7 @@ Proof.
     destruct (setup_tree (is_root cfg) (effective_files cfg p)) as [t|] eqn:Et.
     + assert (K : forall ph0, match ph0 with Running _ | Ending _ SDefers => True | _ => False end ->
                   sinv cfg p s {| ph := ph0; cwd := []; senv := initial_env (hostenv cfg) s (setup_adds p); tr := t;
-                                  wpresent := true; dstack := rev (setup_defers p); bgl := [];
+                                  wpresent := true; dstack := rev (setup_defers p); bgl := []; failedf := false;
                                   obs := map (fun d => EvDeferReg (fst d)) (setup_defers p)
                                          ++ [EvSetup (initial_env (hostenv cfg) s (setup_adds p)) t (escapes_of cfg p)] |}).
       { intros ph0 Hph0. unfold sinv, bgok, setup_ok, defers_pending. cbn [obs bgl ph dstack wpresent].
@@ -550,12 +572,17 @@ Proof.
       { destruct PH as [P1 P2]. split.
         - now rewrite A1, defer_runs_app, P1, A4.
         - rewrite A7, A1, defer_regs_app, rev_app_distr, P2. reflexivity. }
-      unfold sinv. cbn [set_ph ph obs bgl dstack wpresent].
-      split; [exact B1|]. split; [eapply setup_ok_ext; eauto|]. split.
-      * intro Hr. destruct (RT Hr) as [R1 R2]. split.
-        -- now rewrite A1, work_removed_app, R1, A6.
-        -- intros _. rewrite A3. apply R2. try rewrite Eph; discriminate.
-      * destruct o; exact DP.
+      assert (K : forall ssx, obs ssx = obs ss1 -> bgl ssx = bgl ss1 -> dstack ssx = dstack ss1 ->
+                    wpresent ssx = wpresent ss1 ->
+                    match ph ssx with Running _ | Ending _ SDefers | Ending _ SInt => True | _ => False end ->
+                    sinv cfg p s ssx).
+      { intros ssx Eo Eb Ed Ew Hph. unfold sinv, bgok, setup_ok, defers_pending in *. rewrite Eo, Eb, Ed, Ew.
+        split; [exact B1|]. split; [rewrite A1, setup_events_app, A5, app_nil_r; exact SU|]. split.
+        - intro Hr. destruct (RT Hr) as [R1 R2]. split.
+          + now rewrite A1, work_removed_app, R1, A6.
+          + intros _. rewrite A3. apply R2. try rewrite Eph; discriminate.
+        - destruct (ph ssx) as [|?|? []|?]; try contradiction; exact DP. }
+      destruct o; [| destruct (continue_on_error cfg) | | |]; apply K; try reflexivity; exact I.
     + injection H as <- <- <-. unfold sinv. cbn [set_ph ph obs bgl dstack wpresent].
       split; [exact B|]. split; [exact SU|]. split; [|exact PH].
       intro Hr. destruct (RT Hr) as [R1 R2]. split; [exact R1|]. intros _. apply R2. try rewrite Eph; discriminate.
@@ -665,7 +692,7 @@ Proof.
   - destruct (setup_tree _ _); [destruct (setup_err p)|]; injection H as <- <- <-; left; unfold is_done; cbn; now rewrite Eph.
   - destruct (nth_error (body p) pc).
     + destruct (exec_action cfg s c ss a) as [[c1 ss1] o]. injection H as <- <- <-. left.
-      unfold is_done. cbn. rewrite Eph. now destruct o.
+      unfold is_done. rewrite Eph. destruct o; [| destruct (continue_on_error cfg) | | |]; reflexivity.
     + injection H as <- <- <-. left. unfold is_done. cbn. now rewrite Eph.
   - destruct st; try (injection H as <- <- <-; left; unfold is_done; cbn; now rewrite Eph).
     destruct (retain cfg) eqn:Er; injection H as <- <- <-; [now right|].
@@ -910,7 +937,7 @@ Qed.
 Lemma exec_action_env_ok cfg s a : forall c ss c' ss' o,
   exec_action cfg s c ss a = (c', ss', o) -> env_ok s (senv ss) -> env_ok s (senv ss').
 Proof.
-  induction a as [p d|p ro|p|p|k v|sub keep|id bad|h neg| | | | | |neg prog a IH]; intros c ss c' ss' o H E;
+  induction a as [p d|p ro|p|p|k v|sub keep|id bad|h neg| | | | | | | |neg prog a IH]; intros c ss c' ss' o H E;
     cbn [exec_action] in H.
   - destruct (write_file _ _ _ _); injection H as <- <- <-; exact E.
   - destruct (mkdir_all _ _ _); injection H as <- <- <-; exact E.
@@ -952,7 +979,7 @@ Lemma exec_action_sim cfg s a : key_by_path cfg = true ->
   exec_action cfg s cb ss a = (cb', ssb, ob) -> exec_action cfg s ca ss a = (ca', ssa, oa) ->
   ssb = ssa /\ ob = oa /\ Rel cfg s cb' ca' /\ Glob cfg cb' /\ frame_others cfg s cb cb'.
 Proof.
-  intro Hk. induction a as [p d|p ro|p|p|k v|sub keep|id bad|h neg| | | | | |neg prog a IH];
+  intro Hk. induction a as [p d|p ro|p|p|k v|sub keep|id bad|h neg| | | | | | | |neg prog a IH];
     intros cb ca ss cb' ssb ob ca' ssa oa R G E Hb Ha.
   14: {
     cbn [exec_action] in Hb, Ha.
